@@ -175,8 +175,11 @@ def gen_ws(r, n_cases):
             for _ in range(k):
                 s += r.choice(vocab) + r.choice(SEPS)
             lines.append(s)
-        out.append({'kind': 'ws', 'stream': 'corpus_file', 'lines': lines, 'n_jobs': ((i * 7) % 32) + 1,
-                    'lower_case': bool(i % 2), 'eol': '\n' if r.random() < 0.9 else r.choice(['\r\n', '\r']),
+        # n_jobs and lower_case are drawn independently (a parity-coupled schedule once hid the
+        # n_jobs=1 x lower_case=True corner: seeded change C11_a)
+        out.append({'kind': 'ws', 'stream': 'corpus_file', 'lines': lines,
+                    'n_jobs': ((i * 7) % 32) + 1 if i % 3 else r.choice([1, 1, 2, 3]),
+                    'lower_case': r.random() < 0.5, 'eol': '\n' if r.random() < 0.9 else r.choice(['\r\n', '\r']),
                     'final_eol': r.random() < 0.8})
     return out
 
